@@ -87,6 +87,11 @@ func (m *C05) check(w *eng.World, s *snap.Snap, where string) {
 						if d := ref.SigDigits(tok); d > 34 {
 							key = "registered-invariant-false-alarm/>34-digits"
 						}
+						// a legacy basket whose deprecated exponent field differs from the precision: the invariant
+						// multiplies by the field, every handler by the precision
+						if int(b.Exponent) != basketPrecision(s, b.CreditTypeAbbrev) && tot.Sign() != 0 { //nolint:staticcheck
+							key = "registered-invariant-false-alarm/legacy-exponent"
+						}
 					}
 				}
 			}
